@@ -64,6 +64,18 @@ def run(ctx):  # noqa: C901, PLR0912, PLR0915
     # what the handle resolution finds is what the MDIB contains: no state of a removed descriptor stays behind in the tables
     common.index_lists_not_mutated_while_iterated(ctx, 'C20.R2')
     common.string_readers_return_the_text(ctx, 'C20.R3')
+    ctx.borrow('C11', {'C11.R1'}, 'C20.R1', why='a rejected insert leaves no object that the empty-list answer contains and the handle lookups do not')
+    from engine.deps import Deps
+    gmd = repo.func('sdc11073.mdib.providermdibxtra.ProviderMdibMethods.get_mds_descriptor')
+    dgm = Deps(gmd.node)
+    pnm = [a.arg for a in gmd.node.args.args if a.arg != 'self'][0]
+    indep = [unparse(r.value)[:50] for r in walk_no_nested(gmd.node) if isinstance(r, ast.Return) and r.value is not None and
+             not (isinstance(r.value, ast.Constant) and r.value.value is None) and
+             not any(s_ in (pnm, f'param:{pnm}') or s_.startswith(f'{pnm}.') for s_ in dgm.sources(r.value) | {unparse(r.value)})]
+    ctx.ob('C20.R2', 'the MDS of a descriptor is found by walking up from it', not indep,
+           'every MDS that get_mds_descriptor returns was reached from the given container' if not indep else
+           f'get_mds_descriptor returns {indep} without looking at the container it was asked about: descriptors of a second MDS '
+           f'that is added later get the first MDS as source - GetContextStates by MDS handle returns the wrong states', fi=gmd)
     # a handle names one thing: new_entity / mk_context_state refuse a handle that a context state or a descriptor already has
     ctx.borrow('C10', {'C10.R5'}, 'C20.R2', contains=['new_entity', 'mk_context_state', 'unique handle indices'])
     # ------------------------------------------------------------------ R1 + R2 + R3
